@@ -92,11 +92,15 @@ def service (d : Dev) (alias : S) : Option Svc :=
   | none => none
   | some tys => (ord tys).findSome? (findService d)
 
-/-- `UpnpProfileDevice._action` (the service the action object belongs to) -/
+/-- `UpnpProfileDevice._action` (the service the action object belongs to): the first offered
+    service of the alias's types that defines the action -/
 def action (d : Dev) (alias name : S) : Option Svc :=
-  match service ord T d alias with
+  match get? T alias with
   | none => none
-  | some s => if s.acts.contains name then some s else none
+  | some tys => (ord tys).findSome? fun ty =>
+      match findService d ty with
+      | some s => if s.acts.contains name then some s else none
+      | none => none
 
 /-- `IgdDevice._any_action` -/
 def anyAction (d : Dev) (aliases : List S) (name : S) : Option Svc :=
